@@ -109,6 +109,11 @@ func c07Generate(c *mon.Ctx) {
 		c.Structured(func() any { return &c07Case{Kind: "decode", In: in, Class: cl} })
 	}
 
+	for _, v := range gen.UnitDigitTuples(n) {
+		in, cl := mon.H(oracle.Bytes32(v.X)), v.Class
+		c.Structured(func() any { return &c07Case{Kind: "decode", In: in, Class: cl} })
+	}
+
 	for d := int64(-4096); d <= 4096; d += int64(c.N(7, 1)) {
 		in := mon.H(oracle.Bytes32(new(big.Int).Add(n, big.NewInt(d))))
 		c.Structured(func() any { return &c07Case{Kind: "decode", In: in, Class: "window"} })
